@@ -205,13 +205,22 @@ CLAIMED = {
              "_validate_sibling_operation variants, detach/replace/insert/__setitem__/__delitem__ guards, comment-content and "
              "PI-target validators) are modelled in Lean and proved to reject exactly the declaratively illegal calls with the "
              "class the code uses, to pass every Legal edit, and the validators to accept exactly well-formed comments / "
-             "non-reserved targets (Props/C09.lean). That a rejected call leaves the real trees untouched concerns mutation "
-             "order in Python, which a functional model cannot exhibit; it is established by exploration on the implementation: "
-             "every kind of illegal single-node call on forests reached by edit histories - exception class vs the guard "
-             "model and full before/after dumps of all trees.",
-        note=TB + "The 'unchanged after rejection' half of the property rests on the correspondence run, not on a theorem "
-             "(partial by construction). Known finding: node[0] = attached_node on an empty tag node (pinned by the suite).",
-        technique="Lean 4 theorems over the guard model + exhaustive-by-kind exploration of illegal calls on the implementation with before/after dumps",
+             "non-reserved targets (Props/C09.lean). That a rejected call leaves the trees untouched concerns the ORDER of "
+             "checks and mutations in the Python methods: harness/gen_guard_skeleton.py re-derives from /repo's source, on "
+             "every run, the control-flow paths of all 17 editing entry points as sequences of guard / mutate / call events "
+             "(Generated/GuardSkeleton.lean); Lean proves for the event machine that on a path of the shape guards-first a "
+             "rejection at an own guard happens before any change (c09_rejected_before_any_change) and decides that every "
+             "path of the current source has that shape for single-node calls, up to four named (caller, callee) pairs whose "
+             "later checks cannot fire (c09_source_guards_first, c09_source_rejections_change_nothing, "
+             "c09_source_checkers_pure). In addition it is explored on the implementation: every kind of illegal single-node "
+             "call on forests reached by edit histories (also item assignment at existing positions, calls under the default "
+             "filters, root assignments) - exception class vs the guard model and full before/after dumps of all trees.",
+        note=TB + "The event summary is syntactic (named mutators, checkers and state attributes; if/else alternatives, loop "
+             "bodies once): its completeness is trusted and cross-checked by the before/after exploration; the four allowed "
+             "later calls (replace_with -> detach; TagNode.detach -> detach of children / insert_children / append_children) "
+             "are justified in Model/GuardOrder.lean and exercised by the C01 histories. Known finding: node[0] = "
+             "attached_node on an empty tag node (pinned by the suite).",
+        technique="Lean 4 theorems over the guard model and over translator-generated check/mutation event paths (decide) + exhaustive-by-kind exploration of illegal calls on the implementation with before/after dumps",
         design="3/C09",
     ),
     "C10": dict(
